@@ -4,6 +4,7 @@ use crate::analysis::validator_parser::ValidatorParser;
 use crate::models::{FieldInfo, StructInfo};
 use quote::ToTokens;
 use std::path::Path;
+use syn::ext::IdentExt;
 use syn::{Attribute, ItemEnum, ItemStruct, Type, Visibility};
 
 /// Parser for Rust structs and enums
@@ -111,7 +112,7 @@ impl StructParser {
                     .skip
             })
             .map(|variant| {
-                let variant_name = variant.ident.to_string();
+                let variant_name = variant.ident.unraw().to_string();
 
                 // Parse variant-level serde attributes
                 let variant_serde_attrs = self.serde_parser.parse_field_serde_attrs(&variant.attrs);
@@ -182,7 +183,8 @@ impl StructParser {
         field: &syn::Field,
         type_resolver: &mut TypeResolver,
     ) -> Option<FieldInfo> {
-        let name = field.ident.as_ref()?.to_string();
+        // `r#type: String` is the field `type` for serde
+        let name = field.ident.as_ref()?.unraw().to_string();
 
         // Parse field-level serde attributes
         let field_serde_attrs = self.serde_parser.parse_field_serde_attrs(&field.attrs);
